@@ -540,6 +540,17 @@ func c21PathsFrom(start ssa.Instruction, opt c21PathOpts) (paths []*c21Path, ove
 				return
 			case *ssa.If:
 				cond, flip := c21StripNot(t.Cond)
+				// a condition held in a boolean local (`b := x && y; if b {…}`) is a φ
+				// that this path has bound to one operand: the fact is about that
+				// operand (the φ may be re-bound later, so resolve it now)
+				if _, isPhi := cond.(*ssa.Phi); isPhi {
+					if w := p.R(cond); w != cond {
+						if _, isConst := w.(*ssa.Const); !isConst {
+							c2, f2 := c21StripNot(w)
+							cond, flip = c2, flip != f2
+						}
+					}
+				}
 				for k, s := range b.Succs {
 					truth := (k == 0) != flip
 					// constant conditions: only the live edge
@@ -628,15 +639,34 @@ func c21BindPhis(p *c21Path, from, to *ssa.BasicBlock) {
 	}
 }
 
+// c21StripNot reduces a boolean value to the value it negates or compares with a
+// boolean constant: !x, x == false, x != true → (x, flipped); x == true,
+// x != false → (x, not flipped).
 func c21StripNot(v ssa.Value) (ssa.Value, bool) {
 	flip := false
 	for {
-		u, ok := v.(*ssa.UnOp)
-		if !ok || u.Op != token.NOT {
-			return v, flip
+		switch u := v.(type) {
+		case *ssa.UnOp:
+			if u.Op == token.NOT {
+				v = u.X
+				flip = !flip
+				continue
+			}
+		case *ssa.BinOp:
+			if u.Op == token.EQL || u.Op == token.NEQ {
+				if cb, ok := c21ConstBool(u.Y); ok {
+					v = u.X
+					flip = flip != ((u.Op == token.EQL) != cb)
+					continue
+				}
+				if cb, ok := c21ConstBool(u.X); ok {
+					v = u.Y
+					flip = flip != ((u.Op == token.EQL) != cb)
+					continue
+				}
+			}
 		}
-		v = u.X
-		flip = !flip
+		return v, flip
 	}
 }
 
@@ -1120,7 +1150,7 @@ func (c *Ctx) c21CheckCmdErr(fn *ssa.Function, ci ssa.CallInstruction, method st
 				// ProcessState.ExitCode() — -1 for a signalled child, which `try`
 				// (exitNum > 0) reads as success. So a returned Wait error must be
 				// known not to be a signal death on that path.
-				if method == "Wait" && c21FuncName(fn) == "lang.execFork" && !strings.Contains(facts, `"signal:")=F`) {
+				if method == "Wait" && c21FuncName(fn) == "lang.execFork" && !c21ExcludesSignal(p, errV) {
 					c.Viol("R21a", key, pos, "%s: on the path [%s] a failed (*exec.Cmd).Wait is returned as an error without the path excluding death by signal (`signal:` prefix): External then stores ProcessState.ExitCode() = -1 as the exit number, which `try` and `||` inside try treat as success", c21FuncName(fn), facts)
 					continue
 				}
@@ -1164,6 +1194,33 @@ func (c *Ctx) c21CheckCmdErr(fn *ssa.Function, ci ssa.CallInstruction, method st
 		}
 		c.Viol("R21a", key, pos, "%s: when (*exec.Cmd).%s fails with [%s] the function %s — the command's failure (e.g. death by signal) is reported as exit number 0, so `&&`, `||` and `try` treat it as success", c21FuncName(fn), method, facts, what)
 	}
+}
+
+// c21ExcludesSignal: the path carries the fact that <err>.Error() does not
+// start with (or does not contain) the text "signal:" — the way os/exec's
+// ExitError renders death by signal. Resolved through the call targets and the
+// constant's value, not through the rendering of the facts.
+func c21ExcludesSignal(p *c21Path, errV ssa.Value) bool {
+	for _, f := range p.Facts {
+		if f.True {
+			continue
+		}
+		call, ok := f.Cond.(*ssa.Call)
+		if !ok || !(c21IsCallTo(call, "strings", "", "HasPrefix") || c21IsCallTo(call, "strings", "", "Contains")) {
+			continue
+		}
+		args := call.Common().Args
+		if len(args) != 2 {
+			continue
+		}
+		if s, ok := c21ConstString(args[1]); !ok || s != "signal:" {
+			continue
+		}
+		if ec, ok := p.R(args[0]).(*ssa.Call); ok && ec.Common().IsInvoke() && ec.Common().Method.Name() == "Error" && p.R(ec.Common().Value) == p.R(errV) {
+			return true
+		}
+	}
+	return false
 }
 
 // c21UnknowableFact: the path carries the fact <err>.Error() == <frozen text>.
